@@ -83,7 +83,7 @@ C20Sites(M, obj, tv) ==
         a == AttrOf(tv, F)
         s == EffSrc(F, obj)
         trig == ParentTrig(F, obj)
-        unsetOneof == F.oneof # "" /\ GetPath(obj, <<F.oneof>>).t = "nil"
+        unsetOneof == F.oneof # "" /\ GetPath(obj, F.opath).t = "nil"
     IN IF ~HasFlags(a) \/ F.kind = "custom" THEN {}
        ELSE IF F.placeholder THEN (IF a.null THEN {} ELSE {V("C20.placeholder.null", F, "")})
        ELSE IF unsetOneof THEN (IF a.null THEN {} ELSE {V("C20.oneof.unset_null", F, "")})
@@ -117,7 +117,7 @@ C07To(M, obj, tv) ==
         a == AttrOf(tv, F)
         s == EffSrc(F, obj)
     IN (IF F.oneof # "" /\ HasFlags(a) /\ F.kind # "custom" THEN
-          LET h == GetPath(obj, <<F.oneof>>)
+          LET h == GetPath(obj, F.opath)
               active == h.t = "one" /\ h.b = F.name
           IN IF ~active THEN (IF a.null THEN {} ELSE {V("C07.to.inactive_null", F, "")})
              ELSE (IF a.null <=> PayloadZero(F, h.w) THEN {} ELSE {V("C07.to.active_iff_nonzero", F, "")})
@@ -136,11 +136,11 @@ C07From(M, tv, obj) ==
   IF ~(tv.k = "obj" /\ Known(tv)) \/ obj.t # "st" THEN {}
   ELSE
   (UNION {
-    LET h == M.oneofs[g]
-        branches == {i \in DOMAIN M.fields : M.fields[i].oneof = h}
+    LET h == M.ohold[g]
+        branches == {i \in DOMAIN M.fields : M.fields[i].opath = h}
         wellformed == \A i \in branches : HasFlags(AttrOf(tv, M.fields[i])) /\ TypedAs(M.fields[i], AttrOf(tv, M.fields[i]))
         known == {i \in branches : Known(AttrOf(tv, M.fields[i]))}
-        hv == GetPath(obj, <<h>>)
+        hv == GetPath(obj, h)
     IN IF ~wellformed \/ branches = {} THEN {}
        ELSE IF known = {} THEN (IF hv.t = "nil" THEN {} ELSE {V("C07.from.none", M.fields[CHOOSE i \in branches : TRUE], "")})
        ELSE IF Cardinality(known) = 1 THEN
@@ -149,7 +149,7 @@ C07From(M, tv, obj) ==
           IN IF hv.t = "one" /\ hv.b = F.name /\ (F.kind = "prim" => hv.w = Sc(a.v)) /\ (F.kind = "obj" => hv.w.t = "ptr")
              THEN {} ELSE {V("C07.from.single", F, "")}
        ELSE {}
-    : g \in DOMAIN M.oneofs })
+    : g \in DOMAIN M.ohold })
   \cup UNION {
     LET F == M.fields[i]
         a == AttrOf(tv, F)
@@ -219,7 +219,7 @@ MaskCustomGo(M, i, g) ==
 RtDiff(c, M, orig, a, b) ==
   LET fieldDiffs == UNION {
         LET F == M.fields[i]
-            gp == IF F.oneof # "" THEN <<F.oneof>> ELSE F.gopath
+            gp == IF F.oneof # "" THEN F.opath ELSE F.gopath
         IN IF F.placeholder \/ GetPath(a, gp) = GetPath(b, gp) THEN {} ELSE {V(c, F, ParentTrig(F, orig))}
         : i \in DOMAIN M.fields }
   IN IF a = b THEN {} ELSE IF fieldDiffs = {} THEN {VG(c, M.path)} ELSE fieldDiffs
@@ -259,7 +259,7 @@ DecFields(M, i, tv, g) ==
            skip == F.placeholder \/ F.kind = "custom" \/ ~HasFlags(a)
        IN DecFields(M, i + 1, tv,
             IF skip THEN g
-            ELSE IF F.oneof # "" THEN (IF Known(a) THEN SetPath(g, <<F.oneof>>, One(F.name, DecField(F, a))) ELSE g)
+            ELSE IF F.oneof # "" THEN (IF Known(a) THEN SetPath(g, F.opath, One(F.name, DecField(F, a))) ELSE g)
             ELSE IF F.embed # "" THEN
                  (IF Known(a) \/ GetPath(g, Front(F.gopath)).t = "ptr"
                   THEN SetPath(IF GetPath(g, Front(F.gopath)).t = "nil" THEN SetPath(g, Front(F.gopath), Ptr(F.pzero)) ELSE g,
@@ -287,8 +287,8 @@ WellFormedObj(M, tv) ==
 RECURSIVE OneBranch(_, _)
 OneBranch(M, tv) ==
   IF ~(tv.k = "obj" /\ Known(tv)) THEN TRUE
-  ELSE /\ \A g \in DOMAIN M.oneofs :
-            Cardinality({i \in DOMAIN M.fields : M.fields[i].oneof = M.oneofs[g] /\ HasFlags(AttrOf(tv, M.fields[i])) /\ ~AttrOf(tv, M.fields[i]).null}) <= 1
+  ELSE /\ \A g \in DOMAIN M.ohold :
+            Cardinality({i \in DOMAIN M.fields : M.fields[i].opath = M.ohold[g] /\ HasFlags(AttrOf(tv, M.fields[i])) /\ ~AttrOf(tv, M.fields[i]).null}) <= 1
        /\ \A i \in DOMAIN M.fields :
             LET F == M.fields[i]
                 a == AttrOf(tv, F)
@@ -298,7 +298,7 @@ OneBranch(M, tv) ==
                  [] OTHER -> TRUE
 
 \* unmapped (excluded) top-level Go fields
-Unmapped(M, obj) == {n \in DOMAIN obj.f : n \notin Range(M.oneofs) /\ \A i \in DOMAIN M.fields : M.fields[i].gopath = <<>> \/ M.fields[i].gopath[1] # n}
+Unmapped(M, obj) == {n \in DOMAIN obj.f : n \notin {M.ohold[k][1] : k \in DOMAIN M.ohold} /\ \A i \in DOMAIN M.fields : M.fields[i].gopath = <<>> \/ M.fields[i].gopath[1] # n}
 MaskUnmapped(M, obj) == St([n \in DOMAIN obj.f |-> IF n \in Unmapped(M, obj) THEN Nil ELSE obj.f[n]])
 
 ---------------------------------------------------------------------------
@@ -334,7 +334,7 @@ C05Sites(M, tv, obj, trig0) ==
         a == AttrOf(tv, F)
         raw == SrcVal(F, obj)
         s == EffSrc(F, obj)
-        h == IF F.oneof # "" THEN GetPath(obj, <<F.oneof>>) ELSE Nil
+        h == IF F.oneof # "" THEN GetPath(obj, F.opath) ELSE Nil
         trig == trig0
     IN IF ~HasFlags(a) \/ F.kind = "custom" \/ F.placeholder THEN {}
        ELSE IF ~Known(a) THEN
